@@ -11,6 +11,17 @@ func init() {
 	f := "internal/wat/watutil/wat2c/wat2c_func.go"
 	register(&Property{ID: "C03", Run: runC03, Mutants: []Mutant{
 		{Name: "epilogue chosen from the last instruction visited", File: f, Old: "\tvar lastTok token.Token\n\tif n := len(fn.Body.List); n > 0 {\n\t\tlastTok = fn.Body.List[n-1].Token()\n\t}\n\tswitch tok := lastTok; tok {", New: "\tswitch tok := stk.LastInstruction().Token(); tok {", Expect: "epilogue-on-top-level-last"},
+		{Name: "i32.load indexes memory with the signed address", File: f, Old: "\"%smemcpy(&R%d.i32, &%s_memory[(uint64_t)R%d.u32+%d], 4); // %s\\n\"", New: "\"%smemcpy(&R%d.i32, &%s_memory[R%d.i32+%d], 4); // %s\\n\"", Expect: "c-memory-address-unsigned :: i32.load"},
+		{Name: "memory.fill reads its length signed", File: f, Old: "memset(&%s_memory[R%d.u32], R%d.i32, R%d.u32);", New: "memset(&%s_memory[R%d.u32], R%d.i32, R%d.i32);", Expect: "c-memory-address-unsigned :: memory.fill: length"},
+		{Name: "memory.copy through memcpy", File: f, Old: "%smemmove(&%s_memory[R%d.u32], &%s_memory[R%d.u32], R%d.u32);", New: "%smemcpy(&%s_memory[R%d.u32], &%s_memory[R%d.u32], R%d.u32);", Expect: "c-memory-copy-overlap :: memory.copy"},
+		{Name: "memory.init cuts the data with slot numbers", File: f, Old: "for _, x := range p.m.Data[i.DataIdx].Value {", New: "for _, x := range p.m.Data[i.DataIdx].Value[off:][:len] {", Expect: "slot-number-not-value :: wat2c wat2cWorker.buildFunc_ins"},
+		{Name: "f64.min through C's fmin", File: f, Old: "R%d.f64 = F_MIN(R%d.f64, R%d.f64);", New: "R%d.f64 = fmin(R%d.f64, R%d.f64);", Expect: "c-operator :: f64.min"},
+		{Name: "prelude not written for f32.min/max", File: "internal/wat/watutil/wat2c/wat2c_helper.go", Old: "\tcase token.INS_F32_MIN, token.INS_F32_MAX:\n\t\treturn true\n", New: "", Expect: "c-prelude-emitted-for-users :: f32.m"},
+		{Name: "C prelude: F_MIN orders the zeros the other way", File: "internal/wat/watutil/wat2c/_math_x.c", Old: "(signbit(x) ? (x) : (y))     \\\n   : ((x) < (y)) ? (x) : (y))", New: "(signbit(x) ? (y) : (x))     \\\n   : ((x) < (y)) ? (x) : (y))", Expect: "c-prelude-minmax :: F_MIN"},
+		{Name: "C prelude: F_MAX picks the smaller operand", File: "internal/wat/watutil/wat2c/_math_x.c", Old: ": ((x) > (y)) ? (x) : (y))", New: ": ((x) < (y)) ? (x) : (y))", Expect: "c-prelude-minmax :: F_MAX"},
+		{Name: "C prelude: F_MAX answers the other operand for a NaN", File: "internal/wat/watutil/wat2c/_math_x.c", Old: "#define F_MAX(x, y)                                            \\\n  ((((x) != (x)) || ((y) != (y))) ? ((x) + (y))", New: "#define F_MAX(x, y)                                            \\\n  (((x) != (x)) ? (y) : ((y) != (y)) ? (x)", Expect: "c-prelude-minmax :: F_MAX"},
+		{Name: "data literal: question mark written raw", File: "internal/wat/watutil/wat2c/wat2c_code.go", Old: "+={}[]|:;'<>,./\", rune(x)):", New: "+={}[]|:;'<>,.?/\", rune(x)):", Expect: "c-data-literal :: buildMemory_data: `??x`"},
+		{Name: "i32.const template ends in its comment without a newline", File: f, Old: "\"%sR%d.i32 = %d; // %s\\n\", indent, sp0, i.X, insString(i))", New: "\"%sR%d.i32 = %d; // %s\", indent, sp0, i.X, insString(i))", Expect: "line-terminated :: wat2c"},
 		{Name: "br_table locates the first result after popping them", File: f, Old: "\t\t\t\t\tfirstResultOffset := retIdxList[0]\n", New: "\t\t\t\t\tfirstResultOffset := stk.Len() - len(destScopeResults)\n", Expect: "carried-results-located :: wat2c INS_BR_TABLE"},
 		{Name: "br_table writes the moves before the case label", File: f, Old: "\t\t\t\t\t\tfmt.Fprintf(w, \"%s%s\\n\", indent, caseLabel)\n\t\t\t\t\t\tcaseLabel = \"\"\n", New: "", Expect: "switch-arm-statements-labelled :: wat2c INS_BR_TABLE: case label, results moved"},
 		{Name: "br_table writes the label only when nothing was moved", File: f, Old: "\t\t\t\t\t\tfmt.Fprintf(w, \"%s%s\\n\", indent, caseLabel)\n\t\t\t\t\t\tcaseLabel = \"\"\n", New: "\t\t\t\t\t\tcaseLabel = \"\"\n", Expect: "switch-arm-statements-labelled :: wat2c INS_BR_TABLE: default label, results moved"},
@@ -37,7 +48,7 @@ func init() {
 		{Name: "i32.ge_s uses >", File: f, Old: "R%d.i32 = (R%d.i32>=R%d.i32)? 1: 0;", New: "R%d.i32 = (R%d.i32>R%d.i32)? 1: 0;", Expect: "c-operator :: i32.ge_s"},
 		{Name: "f64.lt reads the f32 view", File: f, Old: "R%d.i32 = (R%d.f64<R%d.f64)? 1: 0;", New: "R%d.i32 = (R%d.f64<R%d.f32)? 1: 0;", Expect: "c-slot-type :: f64.lt"},
 		{Name: "i64.load16_s zero-extends", File: f, Old: "R%d.i64 = (int64_t)((int16_t)R_u16);", New: "R%d.i64 = (int64_t)((uint16_t)R_u16);", Expect: "c-load-extension :: i64.load16_s"},
-		{Name: "i32.load8_u copies two bytes", File: f, Old: "memcpy(&R_u8, &%s_memory[R%d.i32+%d], 1); R%d.i32 = (int32_t)((uint8_t)R_u8);", New: "memcpy(&R_u8, &%s_memory[R%d.i32+%d], 2); R%d.i32 = (int32_t)((uint8_t)R_u8);", Expect: "c-access-width :: i32.load8_u"},
+		{Name: "i32.load8_u copies two bytes", File: f, Old: "memcpy(&R_u8, &%s_memory[(uint64_t)R%d.u32+%d], 1); R%d.i32 = (int32_t)((uint8_t)R_u8);", New: "memcpy(&R_u8, &%s_memory[(uint64_t)R%d.u32+%d], 2); R%d.i32 = (int32_t)((uint8_t)R_u8);", Expect: "c-access-width :: i32.load8_u"},
 		{Name: "i64.trunc_f64_u goes through int32", File: f, Old: "R%d.i64 = (int64_t)(uint64_t)(trunc(R%d.f64));", New: "R%d.i64 = (int64_t)(uint32_t)(trunc(R%d.f64));", Expect: "c-conversion :: i64.trunc_f64_u"},
 		{Name: "f32.ceil uses floorf", File: f, Old: "R%d.f32 = ceilf(R%d.f32);", New: "R%d.f32 = floorf(R%d.f32);", Expect: "c-operator :: f32.ceil"},
 		{Name: "i32.rem_u divides", File: f, Old: "R%d.i32 = (int32_t)((uint32_t)(R%d.i32)%%(uint32_t)(R%d.i32));", New: "R%d.i32 = (int32_t)((uint32_t)(R%d.i32)/(uint32_t)(R%d.i32));", Expect: "c-operator :: i32.rem_u"},
@@ -125,11 +136,16 @@ func runC03(c *Ctx) {
 	c03UnionMembers(c, p, pk)
 	c03IndexLoops(c, p, pk, 14)
 	c03EpilogueDecision(c, p, pk)
+	c.Min("line-terminated", "functions of wat2c that write C text", lineTerminatedRule(c, p, pk, "wat2c ", lineC), 5)
 	c.Min("carried-results-located", "result moves in the branch arms of wat2c", carriedResultsLocated(c, p, pk, "wat2c"), 2)
 	c.Min("switch-arm-statements-labelled", "br_table iterations of wat2c", switchArmStatementsLabelled(c, p, pk), 5)
 	c.Min("br-table-accepts-default-only", "br_table arm of wat2c", brTableAcceptsDefaultOnly(c, p, pk, "wat2c"), 1)
 	c.Min("float-literal-exact", "float values written into the generated C code", floatLiteralExact(c, p, pk, []string{"//"}, ""), 6)
+	c03MemoryTemplates(c, p, by)
+	c.Min("slot-number-not-value", "functions of wat2c that hold slot numbers", slotNumberNotValue(c, p, pk, "wat2c "), 2)
 	c03Prelude(c)
+	c03PreludeMinMax(c)
+	c03PreludeUsers(c, p, pk, by)
 	var names []string
 	for k := range ins {
 		names = append(names, k)
@@ -138,7 +154,7 @@ func runC03(c *Ctx) {
 	view := map[string]string{"i32": "i32", "u32": "i32", "i64": "i64", "u64": "i64", "f32": "f32", "f64": "f64"}
 	cop := map[string]string{"add": "+", "sub": "-", "mul": "*", "div": "/", "div_s": "/", "div_u": "/", "rem_s": "%", "rem_u": "%", "and": "&", "or": "|", "xor": "^",
 		"eq": "==", "ne": "!=", "lt": "<", "gt": ">", "le": "<=", "ge": ">=", "lt_s": "<", "lt_u": "<", "gt_s": ">", "gt_u": ">", "le_s": "<=", "le_u": "<=", "ge_s": ">=", "ge_u": ">="}
-	libm := map[string]string{"abs": "fabs", "ceil": "ceil", "floor": "floor", "trunc": "trunc", "nearest": "rint", "sqrt": "sqrt", "min": "fmin", "max": "fmax", "copysign": "copysign"}
+	libm := map[string]string{"abs": "fabs", "ceil": "ceil", "floor": "floor", "trunc": "trunc", "nearest": "rint", "sqrt": "sqrt", "min": "F_MIN", "max": "F_MAX", "copysign": "copysign"}
 	nops := 0
 	for _, k := range names {
 		m := ins[k]
@@ -203,11 +219,17 @@ func runC03(c *Ctx) {
 			}
 			if strings.Contains(op, "store") && len(v.pops()) == 2 {
 				// value = first popped, address = second popped: the memory index must use the address slot
-				idx := strings.Index(line.Format, "_memory[R%d")
+				// (the slot may be written behind a widening cast: `_memory[(uint64_t)R%d.u32+%d]`)
+				idx := strings.Index(line.Format, "_memory[")
+				end := -1
+				if idx >= 0 {
+					end = idx + strings.IndexByte(line.Format[idx:], ']')
+				}
 				good := false
 				for _, r := range refs {
-					if idx >= 0 && r.Pos == idx+len("_memory[") && r.Arg == v.varOf("pop", 1) {
-						good = true
+					if idx >= 0 && r.Pos >= idx+len("_memory[") && r.Pos < end {
+						good = r.Arg == v.varOf("pop", 1)
+						break
 					}
 				}
 				c.Check(good, "c-operand-order", m, loc, "address is the second popped slot", "store template for "+m+" does not index memory with the address slot (second popped)")
@@ -241,6 +263,11 @@ func runC03(c *Ctx) {
 				fn := libm[op]
 				if t == "f32" {
 					fn += "f"
+				}
+				if op == "min" || op == "max" {
+					// C's fmin/fmax return the other operand for a NaN and do not order -0 below +0: the translator
+					// goes through the prelude's F_MIN/F_MAX, whose definition is decided by c-prelude-minmax
+					fn = "F_" + strings.ToUpper(op)
 				}
 				if op == "min" || op == "max" || op == "copysign" {
 					want = "R=" + fn + "R,R;"
